@@ -422,6 +422,11 @@ fn expectation(w: &str, ops: &[Val]) -> Exp {
 
 const SENTINEL: &str = "\u{a7}sentinel\u{a7}";
 
+thread_local! {
+    /// bit i set = operand i is pushed wrapped in a tag map (bit 2: a non-empty one)
+    static TAGMASK: std::cell::Cell<u8> = std::cell::Cell::new(0);
+}
+
 fn run_word(w: &str, ops: &[Val], via_source: bool) -> (Result<Xresult, String>, Xstate) {
     let mut xs = xs::fresh();
     xs.set_insn_limit(Some(1000)).unwrap();
@@ -436,8 +441,20 @@ fn run_word(w: &str, ops: &[Val], via_source: bool) -> (Result<Xresult, String>,
         s.push_str(w);
         s
     } else {
-        for o in ops {
-            xs.push_data(to_cell(o)).unwrap();
+        let mask = TAGMASK.with(|m| m.get());
+        for (i, o) in ops.iter().enumerate() {
+            let c = to_cell(o);
+            // numbers read from binary input always carry tags: a tagged operand is the same operand
+            let c = if mask & (1 << i) != 0 {
+                let mut t = Xmap::new();
+                if mask & 4 != 0 {
+                    t.insert_mut(Cell::from("len"), Cell::Int(8));
+                }
+                c.with_tags(t)
+            } else {
+                c
+            };
+            xs.push_data(c).unwrap();
         }
         w.to_string()
     };
@@ -473,11 +490,13 @@ fn judge(w: &str, ops: &[Val], via_source: bool, out: &mut CaseOut) -> Exp {
             return None;
         }
         let t = top.clone().unwrap();
-        if t.tags().is_some() {
+        // (an identity conversion hands its argument back, tags included: that is not a freshly computed result)
+        let identity = (w == ">int" && matches!(ops[0], Val::I(_))) || (w == ">real" && matches!(ops[0], Val::R(_)));
+        if t.tags().is_some() && !identity {
             out.fail(format!("{}: result carries tags", w), desc());
             return None;
         }
-        Some(t)
+        Some(t.value().clone())
     };
     match &exp {
         Exp::Int(v) => {
@@ -750,7 +769,14 @@ pub fn case(ch: &mut Choices, ctx: &CaseCtx) -> CaseOut {
             if UNARY.contains(&w) { (w, vec![g(ch)]) } else { (w, vec![g(ch), g(ch)]) }
         }
     };
+    // 1 case in 4: some operands carry tags (as every number read from binary input does)
+    let mask = if !via_source && ch.chance(1, 4) { 1 + ch.below(7) as u8 } else { 0 };
+    TAGMASK.with(|m| m.set(mask));
     let exp = judge(w, &ops, via_source, &mut out);
+    TAGMASK.with(|m| m.set(0));
+    if mask != 0 {
+        out.class("tagged-operand");
+    }
     finish(w, &ops, &exp, &mut out, ctx, "random");
     out
 }
